@@ -9,6 +9,7 @@ mod engine;
 mod gen;
 mod hist;
 mod inv;
+mod lockmodel;
 mod obs;
 mod ops;
 mod profiles;
@@ -196,6 +197,7 @@ fn main() {
                     }
                     eprintln!("{yes} confirmed, {no} unconfirmed");
                 }
+                "lockmodel" => std::process::exit(lockmodel::run()),
                 "determinism" => {
                     let n: u64 = args.get(3).and_then(|s| s.parse().ok()).unwrap_or(600);
                     let exe = std::env::current_exe().unwrap();
